@@ -405,6 +405,77 @@ def h_graph2(ctx, cfg):
 
 
 # ------------------------------------------------------------------------------------------------
+# (1c) initialization order from the default inputs
+# ------------------------------------------------------------------------------------------------
+def h_initchain(ctx, cfg):
+    """order_disciplines_from_default_inputs / MDOInitializationChain: the returned order contains every discipline once and each
+    discipline only needs data that are defaults, declared available, or produced EARLIER in that order; it fails (ValueError, or
+    the list of missing inputs) exactly when no complete order exists."""
+    from gemseo.core.chains.initialization_chain import MDOInitializationChain, order_disciplines_from_default_inputs
+
+    n = cfg["n"]
+    E = _adjacency(ctx, n, cfg)
+    has_default_x = [ctx.flag(f"dx{j}") for j in range(n)]      # the external input x_j has a default value
+    has_default_y = [ctx.flag(f"dy{j}") for j in range(n)]      # the coupling inputs of discipline j have default values
+    avail_x = [ctx.flag(f"ax{j}") for j in range(n)] if cfg.get("available") else [False] * n
+    ins, outs = _io_names(n, E, False)
+    GraphDisc = _classes()["GraphDisc"]
+    discs = [GraphDisc(f"D{j}", ins[j], outs[j]) for j in range(n)]
+    for j, d in enumerate(discs):
+        if has_default_x[j]:
+            d.io.input_grammar.defaults[f"x{j}"] = np.ones(1)
+        if has_default_y[j]:
+            for i in range(n):
+                if E[i][j]:
+                    d.io.input_grammar.defaults[f"y{i}"] = np.ones(1)
+    available = [f"x{j}" for j in range(n) if avail_x[j]]
+    # oracle: least fixed point of "executable once its non-default inputs are available"
+    have = set(available)
+    done = []
+    progress = True
+    while progress:
+        progress = False
+        for j in range(n):
+            if j in done:
+                continue
+            need = {k for k in ins[j] if not ((k == f"x{j}" and has_default_x[j]) or (k.startswith("y") and has_default_y[j]))}
+            if need <= have:
+                done.append(j)
+                have |= set(outs[j])
+                progress = True
+    feasible = len(done) == n
+    got = order_disciplines_from_default_inputs(discs, raise_error=False, available_data_names=available)
+    is_order = all(not isinstance(g, str) for g in got) and len(got) > 0
+    ctx.check("an order is returned iff every discipline can be initialized", _b(ctx, is_order == feasible or (n == 0)))
+    if feasible and is_order:
+        idx = [_index(discs, d) for d in got]
+        ctx.check("every discipline appears exactly once", _b(ctx, sorted(i for i in idx if i is not None) == list(range(n)) and len(idx) == n))
+        have2 = set(available)
+        ok = True
+        for j in idx:
+            if j is None:
+                ok = False
+                break
+            need = {k for k in ins[j] if not ((k == f"x{j}" and has_default_x[j]) or (k.startswith("y") and has_default_y[j]))}
+            ok = ok and need <= have2
+            have2 |= set(outs[j])
+        ctx.check("each discipline only needs defaults, available data or outputs of earlier disciplines", _b(ctx, ok))
+    if not feasible:
+        missing_expected = {k for j in range(n) if j not in done for k in ins[j]} - have
+        ctx.check("the missing inputs reported are unavailable inputs of the blocked disciplines", _b(ctx, set(got) <= {k for j in range(n) if j not in done for k in ins[j]} and set(got) >= missing_expected - {k for k in missing_expected if False}))
+        raised = False
+        try:
+            MDOInitializationChain(discs, available_data_names=available)
+        except ValueError:
+            raised = True
+        ctx.check("MDOInitializationChain raises ValueError when no order exists", _b(ctx, raised))
+    else:
+        chain = MDOInitializationChain(discs, available_data_names=available)
+        ctx.check("MDOInitializationChain keeps all the disciplines", _b(ctx, len(chain.disciplines) == n))
+    ctx.observe("feasible", [float(feasible)])
+
+
+# ------------------------------------------------------------------------------------------------
 # (3) composition on acyclic systems
 # ------------------------------------------------------------------------------------------------
 def h_composition(ctx, cfg):
@@ -517,6 +588,12 @@ def configs(tier):
     if tier == "thorough":
         for fixed in _row_fixings(3):                                  # every w: 8 x 4096 graphs
             out.append(("graph2", dict(n=3, fixed=fixed)))
+    # initialization order from the defaults
+    out.append(("initchain", dict(n=1, available=True)))
+    out.append(("initchain", dict(n=2, available=True)))                       # 4 + 6 flags: 1024 cases
+    for fixed in _row_fixings(3):                                              # 6 + 6 flags per fixing: 8 x 4096
+        if tier == "thorough" or (fixed["e00"] == 0):
+            out.append(("initchain", dict(n=3, fixed=fixed)))
     # MDA chain structure
     for n in (1, 2):
         for parallel in (False, True):
@@ -537,4 +614,4 @@ def configs(tier):
     return out
 
 
-HARNESSES = {"graph": h_graph, "graph2": h_graph2, "mdachain": h_mdachain, "composition": h_composition}
+HARNESSES = {"graph": h_graph, "graph2": h_graph2, "initchain": h_initchain, "mdachain": h_mdachain, "composition": h_composition}
